@@ -4,6 +4,9 @@ Request: {"m": "<model>", …model-specific fields…}.  Reply: {"ok": <value>} 
 The handlers call the same definitions the theorems in LianVerif/Properties are about.
 -/
 import LianVerif.Drv.PathStore
+import LianVerif.Drv.Lru
+import LianVerif.Drv.Loader
+import LianVerif.Drv.MapLoader
 
 open Lean LianVerif.Drv
 
@@ -11,6 +14,9 @@ def dispatch (j : Json) : Except String Json := do
   let m ← getStr (← field j "m")
   match m with
   | "pathstore" => LianVerif.Drv.PathStore.handle j
+  | "lru" => LianVerif.Drv.Lru.handle j
+  | "loader" => LianVerif.Drv.Loader.handle j
+  | "maploader" => LianVerif.Drv.MapLoader.handle j
   | _ => throw s!"unknown model {m}"
 
 partial def loop (hin hout : IO.FS.Stream) : IO Unit := do
